@@ -1010,6 +1010,9 @@ static double bell_dmin(double jm, double am, double v0, double v1)
 /* The velocity limit "switched off": vm = 1e30, DBL_MAX / 8 or 2^k times the boundary velocities with k beyond the precision of the type, while v0 and v1 are
    ordinary and DIFFERENT - boundary velocities drawn as fractions of vm never get there. Margins such as vm - v then round to vm itself (seeded change C14-N:
    "equal margins" taken for "equal boundary velocities", so the braking phase is planned as a copy of the run-up). */
+static int g_first_plan; /* the request being drawn is the FIRST plan of a read-back sequence: the second request takes its limits and boundary velocities from the recorded fields,
+                            and with the limit switched off that means boundary velocities of +-1e30 over a distance of order 1 - a motion of 1e30 seconds whose phase formulas
+                            (jerk * t^2 at t = 1e30) have no correct digits left; such sequences are not drawn (they alarmed on the pinned tree in the first thorough run) */
 static void make_bell_unlimited(vf_rng *r, double in[7])
 {
     int const dir = vf_chance(r, 1, 2) ? 1 : -1;
@@ -1032,7 +1035,7 @@ static void make_bell_unlimited(vf_rng *r, double in[7])
 static void make_bell(vf_rng *r, double in[7])
 {
     if (vf_chance(r, 1, 6)) { make_round(r, in, 1); return; }
-    if (vf_chance(r, 1, 12)) { make_bell_unlimited(r, in); return; }
+    if (!g_first_plan && vf_chance(r, 1, 12)) { make_bell_unlimited(r, in); return; }
     unsigned style = (unsigned)vf_below(r, 24);
     int dir = vf_chance(r, 1, 2) ? 1 : -1;
     double jm = vf_logu(r, -3, 3), am = vf_logu(r, -3, 3), vm = vf_logu(r, -3, 3);
@@ -1153,7 +1156,7 @@ static void first_bell(vf_rng *r, double in[7])
     unsigned style = (unsigned)vf_below(r, 10);
     int dir = vf_chance(r, 1, 2) ? 1 : -1;
     double jm, am, vm, d, v0, v1, p0, p1, ta, td, A;
-    if (style >= 8) { make_bell(r, in); return; }
+    if (style >= 8) { g_first_plan = 1; make_bell(r, in); g_first_plan = 0; return; }
     jm = vf_logu(r, -3, 3); am = vf_logu(r, -3, 3); vm = vf_logu(r, -3, 3);
     d = vf_logu(r, -6, 6);
     v0 = pick_vel(r, vm); v1 = pick_vel(r, vm);
